@@ -41,6 +41,8 @@ def main():
             rc, out = sh([os.path.join(ROOT, 'bin', 'verif'), 'check', pid, '--tier', tier])
         finally:
             sh(['git', '-C', '/repo', 'checkout', '--', '.'])
+            # the evidence file now describes the changed tree: put the committed one (unchanged tree) back
+            sh(['git', '-C', ROOT, 'checkout', '--', f'evidence/{pid}.json'])
         wall = round(time.time() - t0, 1)
         viol = [l for l in out.split('\n') if l.startswith('VIOLATION')]
         summary = [l for l in out.split('\n') if l.startswith('[')]
